@@ -11,15 +11,16 @@ import (
 // sequence number Seq (total order of same-instant events).
 
 type OpRec struct {
-	ID      int
-	Obj     int // global election-object index, -1: outside party
-	Inst    int // -1: outside party
-	Actor   string
-	Kind    string
-	Key     string
-	Exp     uint64 // expected revision (update)
-	Payload []byte
-	NthKind int // ordinal among this instance's operations of this kind
+	ID         int
+	Obj        int // global election-object index, -1: outside party
+	Inst       int // -1: outside party
+	Actor      string
+	Kind       string
+	Key        string
+	Exp        uint64 // expected revision (update)
+	Payload    []byte
+	CondDelete bool // a delete with an expected revision (Exp)
+	NthKind    int  // ordinal among this instance's operations of this kind
 
 	IssueT, ApplyT, ReturnT       time.Duration
 	IssueSeq, ApplySeq, ReturnSeq int // -1: did not happen
